@@ -6,6 +6,7 @@
   the code says now.  Python `%` is floored modulo (`Int.fmod`).
 -/
 import PteraModel.Generated.Tools
+import PteraModel.Model.Handlers
 namespace Ptera.Props.C12
 open Ptera.PyVal Ptera.Generated.Tools
 
@@ -104,6 +105,98 @@ theorem C12_gte (s v : Int) : gte (.int s) (.int v) = .ok (.bool (decide (v ≥ 
 theorem C12_names :
     definedNames = ["Range", "every", "between", "lt", "gt", "lte", "gte", "throttle"] := by
   decide
+
+/-! end-to-end filter, over the runtime model M3 (`Model/Handlers.lean`) -/
+open Ptera.Handlers in
+/-- the predicates of the runtime model are the translated `tools.py` definitions -/
+theorem C12_model_pred_every (n start stop v : Int) (hn : n ≠ 0) :
+    ((every (.int n) (.int start) (.int stop)).call (.int v)).map Prod.fst
+      = .ok (.bool (Pred.holds (.every n start (some stop)) v)) := by
+  rw [C12_every n start stop v hn]
+  congr 2
+  have key := fmod_eq_zero_iff (v - start) n
+  by_cases h1 : start ≤ v <;> by_cases h2 : v < stop <;> by_cases h3 : n ∣ v - start <;>
+    simp [Pred.holds, h1, h2, h3, hn, key]
+
+open Ptera.Handlers in
+theorem C12_model_pred_between (a b v : Int) :
+    ((between (.int a) (.int b)).call (.int v)).map Prod.fst
+      = .ok (.bool (Pred.holds (.between a b) v)) := by
+  rw [C12_between]
+  congr 2
+  simp [Pred.holds]
+
+open Ptera.Handlers in
+/-- what the `__check` wrapper tests: every constrained capture that is PRESENT has only values
+    satisfying its condition; a constrained variable that has not been captured yet imposes nothing -/
+theorem C12_check_iff (sel : Sel) (args : Snapshot) :
+    checkCaptures sel args = true ↔
+      ∀ el ∈ sel.allValues, ∀ cond cap, el.value = some cond → dictGet args el.capture = some cap →
+        ∀ v ∈ cap.values, cond.holds v = true := by
+  unfold checkCaptures
+  simp only [List.all_eq_true]
+  constructor
+  · intro h el hel cond cap hc hg v hv
+    have := h el hel
+    simp only [hc, hg, List.all_eq_true] at this
+    exact this v hv
+  · intro h el hel
+    cases hc : el.value with
+    | none => rfl
+    | some cond =>
+      cases hg : dictGet args el.capture with
+      | none => rfl
+      | some cap =>
+        simp only [List.all_eq_true]
+        exact h el hel cond cap hc hg
+
+open Ptera.Handlers in
+/-- a constrained variable that is not captured yet imposes no condition -/
+theorem C12_absent_imposes_nothing (sel : Sel) (args : Snapshot)
+    (h : ∀ el ∈ sel.allValues, dictGet args el.capture = Option.none) :
+    checkCaptures sel args = true := by
+  rw [C12_check_iff]
+  intro el hel cond cap _ hg
+  rw [h el hel] at hg; cases hg
+
+open Ptera.Handlers in
+/-- every record delivered at the exit of an activation satisfies the handler's conditions
+    (`close` goes through the same `__check` wrapper as `trigger` and `intercept`) -/
+theorem C12_close_filtered (handlers : Array Handler) (heap : Heap) (a : Nat) (acc : Acc) (h : Handler)
+    (ha : heap[a]? = some acc) (hh : handlers[acc.handler]? = some h) :
+    ∀ ev ∈ closeAcc handlers heap a, ∃ args, ev = Event.close acc.handler args ∧ passes h args = true := by
+  intro ev hev
+  unfold closeAcc at hev
+  simp only [ha, hh] at hev
+  split at hev
+  · simp at hev
+  · have key : ∀ (ls : List Nat) (init : List Event),
+        (∀ e ∈ init, ∃ args, e = Event.close acc.handler args ∧ passes h args = true) →
+        ∀ e ∈ ls.foldl (fun evs l =>
+            if ((buildOf heap l).map (·.1)).all h.sel.allCaptures.contains &&
+               h.sel.allCaptures.all ((buildOf heap l).map (·.1)).contains then
+              if h.hasClose && passes h (buildOf heap l) then evs ++ [Event.close acc.handler (buildOf heap l)] else evs
+            else evs) init,
+          ∃ args, e = Event.close acc.handler args ∧ passes h args = true := by
+      intro ls
+      induction ls with
+      | nil => intro init hi e he; exact hi e he
+      | cons l ls ih =>
+        intro init hi e he
+        simp only [List.foldl_cons] at he
+        apply ih _ _ e he
+        intro e' he'
+        split at he'
+        · split at he'
+          · rename_i hp
+            simp only [List.mem_append, List.mem_singleton] at he'
+            rcases he' with h1 | h1
+            · exact hi e' h1
+            · simp only [Bool.and_eq_true] at hp
+              exact ⟨_, h1, hp.2⟩
+          · exact hi e' he'
+        · exact hi e' he'
+    exact key _ [] (by simp) ev hev
 
 -- non-vacuity: concrete instances (negative modulus, negative values)
 example : ((every (.int (-3)) (.int (-4)) (.int 10)).call (.int 5)).map Prod.fst
